@@ -14,7 +14,7 @@ EXPLANATION = (
     "Err(KeyParsing)} x cmp(timestamp, now+SHIFT) {Less,Equal,Greater}; SHIFT = 600_000_000 us; validate_empty's table over"
     " bool^2; (R3) signature verification pairs each key with its own signature over the entry's canonical bytes and "
     'propagates every result; (R4) the canonical encoding reads every field; (R5) the verification-skipping Local origin is'
-    ' constructed only in local insert/delete; (R6) a failed validation continues the value loop. (R7) the gossip receive loop evaluated on scripts of broadcast entries: each reaches the replica through exactly one SyncHandle::insert_remote for the loop document, a rejected entry does not end the loop. (R8) the store-actor handlers of InsertRemote / SyncProcessMessage evaluated with each step failing in turn: nothing is counted as applied and the error is what the caller is told when the replica rejected the entry. NOT decided: '
+    ' constructed only in local insert/delete; (R6) a failed validation continues the value loop. (R7) the gossip receive loop evaluated on scripts of broadcast entries: each reaches the replica through exactly one SyncHandle::insert_remote for the loop document, a rejected entry does not end the loop. (R8) the store-actor handlers of InsertRemote / SyncProcessMessage evaluated with each step failing in turn: nothing is counted as applied and the error is what the caller is told when the replica rejected the entry. (R9) sibling agreement of local authoring with remote validation: Replica::insert evaluated on (hash empty, length zero) signs only a proper non-empty record, delete_prefix the proper deletion marker, both with origin Local. NOT decided: '
     'unforgeability (ed25519 trusted), clock arithmetic.'
 )
 ASSUMPTIONS = [
@@ -549,6 +549,68 @@ def r8(ctx):
     actorfw.claim(ctx, "C03.R8", handlers=("InsertRemote", "SyncProcessMessage"), floor=6)
 
 
+def local_authoring(ctx, rule):
+    """what this replica authors is what every peer accepts: Replica::insert evaluated on (hash is the empty hash, length is
+    zero) - it signs and stores only a proper non-empty record (a peer's validate_empty rejects the two mixed forms: they would
+    be held here, pruning what they supersede, and silently dropped there) -, Replica::delete_prefix evaluated - it signs the
+    proper deletion marker (empty hash, length 0); both with origin Local"""
+    from . import feval as E
+    f = ctx.facts
+    ins = f.body("sync::Replica::<'a, I>::insert")
+    dele = f.body("sync::Replica::<'a, I>::delete_prefix")
+    ctx.touch(ins, dele)
+
+    def evaluate(path, args, hash_empty):
+        log = []
+
+        def oracle(kind, name, payload, site):
+            if kind == "await":
+                return E.Ok(E.Tok("removed")) if str(name) == "fut:insert_entry" else None
+            if kind in ("eq", "cmp"):
+                a, b = str(name), str(payload)
+                if "arg.hash" in (a, b):
+                    return bool(hash_empty) if kind == "eq" else (0 if hash_empty else 1)
+                return None
+            if kind != "call":
+                return None
+            t, a, it = payload
+            names = [it.tokname(x).strip("&*") for x in a]
+            if callee_matches(t, r"sync::Replica::<.*>::insert_entry$"):
+                log.append((names[1], E.describe(it.resolve(a[2]), f)))
+                return E.Tok("fut:insert_entry")
+            if name == "ensure_open":
+                return E.Ok(E.UNIT)
+            if name == "secret_key":
+                return E.Ok(E.Tok("secret"))
+            if name == "sign":
+                return E.Tok("signed(%s)" % names[0])
+            return None
+        try:
+            ret, hp, ev = E.run_async(f, path, args, {"self": E.Tok("replica")}, oracle)
+            return E.describe(ret, f), log
+        except E.Unsupported as e:
+            return "UNSUPPORTED-FORM: %s" % e, log
+    for he in (0, 1):
+        for lz in (0, 1):
+            got, log = evaluate(ins.path, [E.href("self"), E.Tok("arg.key"), E.Tok("arg.author"), E.Tok("arg.hash"), E.Int(0 if lz else 7)], he)
+            proper = not he and not lz
+            if proper:
+                ok = got == "Ok(removed)" and len(log) == 1 and log[0][1] == "Local" and "Record(7,arg.hash," in log[0][0]
+            else:
+                ok = got.startswith("Err(") and not log
+            ctx.check(ok, rule, ins.path, "insert[hash=%s,len=%s]" % ("empty" if he else "content", "0" if lz else "7"),
+                      "returns %s; entries handed to insert_entry: %s; spec: %s" % (got, [(x[0][:90], x[1]) for x in log],
+                      "signed and stored with origin Local, carrying the given hash and length" if proper else "refused, nothing signed or stored (peers reject such a record)"), ins.sp)
+    got, log = evaluate(dele.path, [E.href("self"), E.Tok("arg.prefix"), E.Tok("arg.author")], 0)
+    ok = got == "Ok(removed)" and len(log) == 1 and log[0][1] == "Local" and re.search(r"Record\(0,[^,]*EMPTY", log[0][0]) is not None
+    ctx.check(ok, rule, dele.path, "delete_prefix-signs-a-proper-deletion-marker", "returns %s; entries handed to insert_entry: %s; spec: one entry with the empty hash and length 0, origin Local" % (got, [(x[0][:160], x[1]) for x in log]), dele.sp)
+
+
+def r9(ctx):
+    local_authoring(ctx, "C03.R9")
+    ctx.floor("C03.R9", 5)
+
+
 def run(ctx):
     ctx.run_rule("C03.R1", r1)
     ctx.run_rule("C03.R2", r2)
@@ -558,3 +620,4 @@ def run(ctx):
     ctx.run_rule("C03.R6", r6)
     ctx.run_rule("C03.R7", r7)
     ctx.run_rule("C03.R8", r8)
+    ctx.run_rule("C03.R9", r9)
